@@ -1,5 +1,326 @@
 import DesperModel.Dict
 import DesperModel.Proto
+import DesperModel.Tree
+/-
+  Model of `DirectoryResourcePopulator.__call__` (desper/model/__init__.py:105-191) on top of the
+  heap model of `desper/model/tree.py` (`DesperModel/Tree.lean`).
+
+  The file system is an *input*: for every rule, either "the path does not exist", or "it exists
+  and is not a directory", or the listing that `glob.iglob(dir/**, recursive=True)` produces — an
+  ordered list of entries (path components relative to the populator's root, is it a directory).
+  The listing is what the real glob returned on the real tree (a hint); `ListingOk` is checked
+  on it: the rule directory itself comes first, every other entry comes after its parent
+  directory, nothing is listed twice, no name starts with a dot.
+
+  `os.path` on component lists:
+    splitext            `splitext`   (genericpath._splitext, on the last component)
+    relpath + normpath  the components relative to the root, `.`/empty parts dropped,
+                        `.` for the root itself (`keyComps`)
+    replace(sep, '/')   `Tree.joinKey`
+-/
 namespace Desper.Pop
-def runScenario (_lines : List String) : List String := ["not-implemented"]
+open Desper Desper.Tree
+
+/-- `os.path.splitext` on one path component (genericpath._splitext): the extension starts at
+the last dot, unless only dots precede it -/
+def splitextC (name : List Char) : List Char × List Char :=
+  let r := name.reverse
+  let extRev := r.takeWhile (· ≠ '.')
+  match r.dropWhile (· ≠ '.') with
+  | [] => (name, [])
+  | _ :: stemRev =>
+    if stemRev.any (· ≠ '.') then (stemRev.reverse, '.' :: extRev.reverse) else (name, [])
+
+def splitext (name : String) : String × String :=
+  let r := splitextC name.toList
+  (String.ofList r.1, String.ofList r.2)
+
+/-- `DirectoryPopulatorRule` : model/__init__.py:35-45 -/
+structure Rule where
+  /-- `directory_path`, split at '/' -/
+  dir : List String
+  factory : Nat
+  /-- the extra positional and keyword arguments, as one opaque token -/
+  args : String
+  /-- `file_exts`; empty = every extension -/
+  exts : List String
+deriving Repr, DecidableEq, Inhabited
+
+/-- one result of `glob.iglob`: path components relative to the root, and `os.path.isdir` -/
+abbrev Entry := List String × Bool
+
+/-- what the file system says about `os.path.join(root, rule.directory_path)` -/
+inductive Status where
+  | missing
+  | notDir
+  | dir (listing : List Entry)
+deriving Repr, DecidableEq, Inhabited
+
+/-- `normpath` of a relative path without `..`: empty and `.` components disappear -/
+def normComps (cs : List String) : List String := cs.filter (fun c => c ≠ "" && c ≠ ".")
+
+/-- components of `normpath(relpath(full, root))` -/
+def keyComps (cs : List String) : List String := if cs.isEmpty then ["."] else cs
+
+/-- a handle the populator created: `rule.instantiate(full_file_path)` -/
+structure Made where
+  h : HId
+  factory : Nat
+  path : List String
+  args : String
+deriving Repr, DecidableEq, Inhabited
+
+structure PSt where
+  tree : Tree.St := {}
+  /-- next handle object -/
+  hnext : Nat := 0
+  /-- newest first -/
+  made : List Made := []
+deriving Inhabited
+
+/-- `for layer in p.handles.maps: if layer.get(key) is handle: del layer[key]`
+(`key = None` is in no layer) -/
+def dropHandle (st : Tree.St) (p : MId) (key : Option String) (h : HId) : Tree.St :=
+  match key with
+  | none => st
+  | some k =>
+    let n := st.m p
+    let f := fun (l : Dict String HId) => if Dict.get? l k = some h then Dict.erase l k else l
+    st.setM p { n with layer0 := f n.layer0, lower := n.lower.map f }
+
+/-- `[init]` and `last` of a non-empty component list -/
+def unsnoc (cs : List String) : List String × String := (cs.dropLast, cs.getLastD "")
+
+/-- the extension filter : model/__init__.py:154-157.  `isSelf`: the first glob result, the rule
+directory itself, which glob spells with a trailing separator (so `splitext` finds no extension) -/
+def accepts (rule : Rule) (isSelf : Bool) (e : Entry) : Bool :=
+  let ext := if isSelf then "" else (splitext (e.1.getLastD "")).2
+  rule.exts.isEmpty || rule.exts.contains ext
+
+/-- the components of `resource_string` : model/__init__.py:160-165 -/
+def entryKey (trim : Bool) (e : Entry) : List String :=
+  let kc := keyComps e.1
+  if trim && !e.2 then kc.dropLast ++ [(splitext (kc.getLastD "")).1] else kc
+
+/-- what happens to the handle that holds the key, before the assignment : model/__init__.py:175-188
+(the nest branch 175-180, the replace branch 181-188).
+`none`: AttributeError on `handle.parent` (a stale back-link, only with aliasing) -/
+def prepare (tree : Tree.St) (m : MId) (key : String) (nest : Bool) : Option Tree.St :=
+  if nest then
+    match Tree.get tree m key with
+    | none => some tree
+    | some r =>
+      -- handle.parent.handles.maps[0].get(handle.key)
+      let link : Option MId × Option String := match r with
+        | .map c => ((tree.m c).parent, (tree.m c).key)
+        | .handle h => ((tree.h h).parent, (tree.h h).key)
+      match link.1 with
+      | none => none
+      | some p =>
+        let cand := link.2.bind (fun k => Dict.get? (tree.m p).layer0 k)
+        if (cand.map Ref.handle) = some r then some (addLayer tree p) else some tree
+  else
+    -- without nesting the visible handle is removed from the layer that holds it
+    match Tree.get tree m key with
+    | some (.handle h) =>
+      match (tree.h h).parent with
+      | none => none
+      | some p => some (dropHandle tree p (tree.h h).key h)
+    | _ => some tree
+
+inductive POutcome where
+  | ok
+  | raised (e : String)
+deriving Repr, DecidableEq, Inhabited
+
+/-- the body of the loop over the glob results for one entry : model/__init__.py:151-191 -/
+def placeEntry (ps : PSt) (m : MId) (rule : Rule) (nest trim : Bool) (isSelf : Bool) (e : Entry) :
+    PSt × POutcome :=
+  if !accepts rule isSelf e then (ps, .ok)
+  else
+    let key := joinKey (entryKey trim e)
+    if e.2 then
+      -- 168-170: a directory, and nothing under that key yet
+      if (Tree.get ps.tree m key).isNone then
+        let c := MId.anon ps.tree.next
+        ({ ps with tree := setItem ps.tree.bump m key (.map c) }, .ok)
+      else (ps, .ok)
+    else
+      -- 171-172: new_resource = rule.instantiate(full_file_path)
+      let g := ps.hnext
+      let made : Made := { h := g, factory := rule.factory, path := e.1, args := rule.args }
+      -- 175-191
+      match prepare ps.tree m key nest with
+      | some t => ({ tree := setItem t m key (.handle g), hnext := g + 1, made := made :: ps.made }, .ok)
+      | none => ({ ps with hnext := g + 1, made := made :: ps.made }, .raised "AttributeError")
+
+def placeAll (ps : PSt) (m : MId) (rule : Rule) (nest trim : Bool) : Bool → List Entry → PSt × POutcome
+  | _, [] => (ps, .ok)
+  | isSelf, e :: rest =>
+    match placeEntry ps m rule nest trim isSelf e with
+    | (ps', .ok) => placeAll ps' m rule nest trim false rest
+    | r => r
+
+/-- `DirectoryResourcePopulator.__call__` : model/__init__.py:136-191 -/
+def populate (ps : PSt) (m : MId) (nest trim : Bool) : List (Rule × Status) → PSt × POutcome
+  | [] => (ps, .ok)
+  | (rule, status) :: rest =>
+    match status with
+    | .missing => populate ps m nest trim rest            -- 141-142
+    | .notDir => (ps, .raised "ValueError")               -- 144-147
+    | .dir listing =>
+      match placeAll ps m rule nest trim true listing with
+      | (ps', .ok) => populate ps' m nest trim rest
+      | r => r
+
+/-! ### ListingOk -/
+
+def hidden (name : String) : Bool := name.startsWith "."
+
+/-- every entry is listed after its parent directory (`seen`: the directories listed so far) -/
+def parentsFirst (seen : List (List String)) : List Entry → Bool
+  | [] => true
+  | e :: es =>
+    !e.1.isEmpty && seen.contains e.1.dropLast && parentsFirst (if e.2 then e.1 :: seen else seen) es
+
+/-- `ListingOk dir listing` for the normalised rule directory `dir` -/
+def listingOk (dir : List String) (listing : List Entry) : Bool :=
+  match listing with
+  | [] => false
+  | first :: rest =>
+    first == (dir, true) &&
+    rest.all (fun e => !hidden (e.1.getLastD "") && e.1 != dir) &&
+    (listing.map (·.1)).eraseDups.length == listing.length &&
+    parentsFirst [dir] rest
+
+/-! ### line protocol -/
+open Proto
+
+structure PopDecl where
+  nest : Bool
+  trim : Bool
+  rules : List Rule := []
+deriving Inhabited
+
+structure RS where
+  t : Tree.RS := {}
+  ps : PSt := { hnext := 100000 }
+  fsDirs : List (List String) := [[]]
+  fsFiles : List (List String) := []
+  pops : Dict String PopDecl := []
+  /-- hints: (call index, rule index) -> status -/
+  globs : Dict (Nat × Nat) Status := []
+  calls : Nat := 0
+  bad : Bool := false
+  badHint : Bool := false
+
+def parseFlag (name : String) (t : String) : Option (Option Bool) :=
+  if t = name ++ "=N" then some none
+  else if t = name ++ "=1" then some (some true)
+  else if t = name ++ "=0" then some (some false)
+  else none
+
+def stripPrefix (p s : String) : Option String :=
+  if s.startsWith p then some (String.ofList (s.toList.drop p.length)) else none
+
+def parseEntry (t : String) : Option Entry :=
+  match t.toList with
+  | 'd' :: ':' :: rest => some (normComps (splitKey (String.ofList rest)), true)
+  | 'f' :: ':' :: rest => some (normComps (splitKey (String.ofList rest)), false)
+  | _ => none
+
+def parseStatus : List String → Option Status
+  | ["missing"] => some .missing
+  | ["notdir"] => some .notDir
+  | ["dir", l] => ((l.splitOn ";").filter (· ≠ "")).mapM parseEntry |>.map .dir
+  | _ => none
+
+/-- the entries of the declared tree below (and including) `dir` -/
+def subtree (r : RS) (dir : List String) : List Entry :=
+  (r.fsDirs.filter (fun d => dir.isPrefixOf d)).map (·, true) ++
+  (r.fsFiles.filter (fun f => dir.isPrefixOf f)).map (·, false)
+
+/-- does the hinted status agree with the declared tree and is the listing `ListingOk`? -/
+def validStatus (r : RS) (dir : List String) : Status → Bool
+  | .missing => !r.fsDirs.contains dir && !r.fsFiles.contains dir
+  | .notDir => r.fsFiles.contains dir
+  | .dir listing =>
+    r.fsDirs.contains dir && listingOk dir listing &&
+    listing.all (fun e => (subtree r dir).contains e) && listing.length == (subtree r dir).length
+
+def syncTree (r : RS) (t : Tree.RS) : RS := { r with t := t, ps := { r.ps with tree := t.st } }
+
+def execLine (r : RS) (line : String) : RS :=
+  if r.bad || r.badHint then r else
+  let bad : RS := { r with bad := true }
+  match tokens line with
+  | [] => r
+  | "glob" :: call :: rule :: rest =>
+    match call.toNat?, rule.toNat?, parseStatus rest with
+    | some c, some k, some s => { r with globs := Dict.set r.globs (c, k) s }
+    | _, _, _ => bad
+  | ["fs", kind, p] =>
+    match parsePathTok p with
+    | none => bad
+    | some path =>
+      let cs := normComps (splitKey path)
+      if kind = "dir" then { r with fsDirs := r.fsDirs ++ [cs] }
+      else if kind = "file" then { r with fsFiles := r.fsFiles ++ [cs] }
+      else bad
+  | ["pop", p, n, t] =>
+    match parseFlag "nest" n, parseFlag "trim" t with
+    | some (some n), some (some t) => { r with pops := Dict.set r.pops p { nest := n, trim := t } }
+    | _, _ => bad
+  | ["rule", p, d, f, e, a] =>
+    match Dict.get? r.pops p, parsePathTok d, (stripPrefix "fac=" f).bind String.toNat?,
+          stripPrefix "exts=" e, stripPrefix "args=" a with
+    | some decl, some dir, some fac, some exts, some args =>
+      let rule : Rule := { dir := splitKey dir, factory := fac, args := args, exts := splitList exts }
+      { r with pops := Dict.set r.pops p { decl with rules := decl.rules ++ [rule] } }
+    | _, _, _, _, _ => bad
+  | ["op", "splitext", n] =>
+    match parsePathTok n with
+    | some name => let s := splitext name
+                   { r with t := r.t.emit s!"splitext :{s.1} :{s.2}" }
+    | none => bad
+  | ["op", "populate", p, m, n, t, _root] =>
+    match Dict.get? r.pops p, parseFlag "nest" n, parseFlag "trim" t with
+    | some decl, some n, some t =>
+      match Dict.get? r.t.menv m with
+      | none => { r with t := r.t.emit "unbound" }
+      | some i =>
+        let nest := n.getD decl.nest
+        let trim := t.getD decl.trim
+        let call := r.calls
+        let r := { r with calls := call + 1 }
+        -- the hinted listings, validated against the declared tree
+        let sts := (List.range decl.rules.length).map fun k => Dict.get? r.globs (call, k)
+        let okHints := (decl.rules.zip sts).all fun (rule, s) =>
+          match s with
+          | some s => validStatus r (normComps rule.dir) s
+          | none => false
+        if !okHints then { r with badHint := true }
+        else
+          let rs := decl.rules.zip (sts.map (·.getD .missing))
+          let before := r.ps.made.length
+          let (ps', out) := populate r.ps i nest trim rs
+          let news := (ps'.made.take (ps'.made.length - before)).reverse
+          let t := news.foldl (fun t (md : Made) =>
+            t.emit s!"made h{md.h} fac={md.factory} path={showPath md.path} args={md.args}") r.t
+          let t := { t with st := ps'.tree, hdecl := t.hdecl ++ news.map (fun (md : Made) => md.h) }
+          let t := match out with
+            | .ok => t.emit "res ok"
+            | .raised e => t.emit s!"res raised {e}"
+          { r with t := t, ps := ps' }
+    | _, _, _ => bad
+  | _ =>
+    -- everything else is an operation of the tree model
+    let t := Tree.execLine r.t line
+    if t.bad then bad else syncTree r t
+
+def runScenario (lines : List String) : List String :=
+  let r0 : RS := { t := { alphabet := alphabetOf lines } }
+  let r := lines.foldl execLine r0
+  if r.bad then ["bad-op"] else if r.badHint then ["bad-hint"] else r.t.out.reverse
+
 end Desper.Pop
